@@ -232,7 +232,7 @@ ROUND8 = {
     "C07": " Dense-chunk inputs; one codec used from two threads in turn; a caught reader panic followed by a retry.",
     "C08": " A transient end of file (the reader answers Ok(0) once at every call index, data later) for streams up to length 5: the tiling goes on after the Eof it justifies.",
     "C09": " Dense-chunk inputs in copied 4096-byte calls drained after each; twin codecs, calls from two threads, a caught reader panic followed by a retry.",
-    "C10": " Leak accounting with every second op on a helper thread (alphabet C to depth 3 / 4).",
+    "C10": " Leak accounting with every second op on a helper thread (alphabet C to depth 3 / 4); streaming through blocks of 1000 / 5000 / 70 000 bytes read into a SEPARATE I/O arena and handed over with encode_anchored (the encoder's own arena then only holds headers).",
     "C11": " Value CONTENTS: values of 7 .. 200 bytes made of zeros / 0xFF with and without a non-zero first byte, last byte or last (n mod 8) bytes, 4 leaf kinds, 3 constructors, 2 sinks.",
     "C13": " A violation that neither a second run in the process nor the history alone in a fresh process shows is confirmed as the pair (history the worker ran just before, this history) in a fresh process: instances that no longer exist can leave traces in a static or a thread-local.",
     "C14": " Calendar landmarks as bases and as local times: the seconds around two leap-second insertions, leap days, 2100-02-28/03-01, month and year ends, the 2^31-second rollover.",
